@@ -195,7 +195,7 @@ def c01(acc):
         replay_reader(acc, p2, "slice")
         replay_reader(acc, p2, "slice", enc=True)
     # construct-focused spaces: nesting inside DOCTYPE, terminator look-alikes inside comment / CDATA / PI, quotes inside tags
-    for mode, k in (("doctype", 5 if q else 6), ("comment", 5 if q else 7), ("cdata", 5 if q else 7), ("pi", 5 if q else 7), ("tag", 4 if q else 5)):
+    for mode, k in (("doctype", 5 if q else 6), ("comment", 5 if q else 7), ("cdata", 5 if q else 7), ("pi", 5 if q else 7), ("tag", 4 if q else 5), ("ws", 4 if q else 5)):
         _, pf = mc_reader(acc, k, "neutral", ["Inv_RefMatch", "Inv_Tiling"], frag=mode, name="MC_Reader-" + mode)
         replay_reader(acc, pf, "slice")
     # the property speaks of "the pull reader": the buffered and async sources implement the same scans separately
@@ -291,7 +291,7 @@ def c08(acc):
     _, p2 = mc_reader(acc, 2 if q else 3, "all", ["Inv_Tiling"], name="MC_Reader-c08all")
     replay_reader(acc, p2, "roundtrip")
     # construct-focused spaces (blank before '>' after '/', DOCTYPE spelling and nesting, terminator look-alikes)
-    for mode, k in (("tag", 4 if q else 5), ("doctype", 4 if q else 6), ("comment", 4 if q else 6), ("cdata", 4 if q else 6), ("pi", 4 if q else 6)):
+    for mode, k in (("tag", 4 if q else 5), ("doctype", 4 if q else 6), ("comment", 4 if q else 6), ("cdata", 4 if q else 6), ("pi", 4 if q else 6), ("ws", 4 if q else 5)):
         _, pf = mc_reader(acc, k, "neutral", ["Inv_Tiling", "Inv_RefMatch"], frag=mode, name="MC_Reader-c08" + mode)
         replay_reader(acc, pf, "slice")
         replay_reader(acc, pf, "roundtrip")
@@ -318,6 +318,9 @@ def c16(acc):
     # hyphen runs inside comments under check_comments, end-tag blanks under trim_markup_names, blanks around text under the trims
     _, p3 = mc_reader(acc, 6 if q else 8, "cover", ["Inv_RefMatch"], frag="comment2", name="MC_Reader-c16comment")
     replay_reader(acc, p3, "slice")
+    # every kind of white space (and form feed, which is none) in tags, end tags and text under the trimming switches
+    _, pw = mc_reader(acc, 4 if q else 5, "cover", ["Inv_RefMatch"], frag="ws", name="MC_Reader-c16ws")
+    replay_reader(acc, pw, "slice")
     # the switches are per-reader state that other calls touch: read_to_end*/read_text switch trimming off while they skip and
     # must leave every option as documented afterwards (also when they fail with a recoverable error and reading goes on);
     # toggles between calls take effect from the next call on
